@@ -216,11 +216,15 @@ def w_partition(job):
         if deps is None:
             continue
         stats["partitions"] += 1
-        nm = lambda mi: f"m{mi}"
-        for placement in placements:
+        # module names in every order relative to the import graph (a linker that walks names in sorted order must not care)
+        names_pool = ["ma", "mb", "mc"][:len(parts)]
+        perms = list(itertools.permutations(names_pool)) if len(parts) > 1 else [tuple(names_pool)]
+        for placement, naming in [(pl, nmg) for pl in placements for nmg in (perms if pl == "first" else perms[:1])]:
+            nm = lambda mi, naming=naming: naming[mi]
             if placement != "first" and not any(deps.values()):
                 continue
             tmp = tempfile.mkdtemp(prefix="nslmc-c16-", dir=os.environ.get("NSLMC_TMPDIR") or None)
+            stats["namings"] = stats.get("namings", 0) + 1
             os.chdir(tmp)
             try:
                 srcs = {}
@@ -277,7 +281,8 @@ def w_partition(job):
                                 imported.add(d)
                                 stack.append(d)
                     overlap = imported & set(perm)
-                    shape = f"modules={len(parts)};added={len(perm)};{'added-and-imported' if overlap else 'roots-only' if explicit_only else 'extra-unrelated'};chain={_depth(deps, roots)};placement={placement}"
+                    asc = all(nm(a) < nm(b) for a in deps for b in deps[a])
+                    shape = f"modules={len(parts)};added={len(perm)};{'added-and-imported' if overlap else 'roots-only' if explicit_only else 'extra-unrelated'};chain={_depth(deps, roots)};placement={placement};names={'ascending' if asc else 'not-ascending'}"
                     by_set.setdefault(frozenset(perm), []).append((perm, outcome))
                     if overlap:
                         continue   # UNSPECIFIED whether a module that is both added and imported links; only order independence is judged below
